@@ -60,6 +60,14 @@ const (
 	MTOctet  = "application/octet-stream"
 )
 
+// Copy returns a copy of the universe with empty (lazily filled) caches, for
+// use by another goroutine.
+func (u *Universe) Copy() *Universe {
+	c := *u
+	c.blobBytes, c.manBytes = nil, nil
+	return &c
+}
+
 // BlobBytes returns the bytes of blob i.
 func (u *Universe) BlobBytes(i int) []byte {
 	if u.blobBytes == nil {
